@@ -205,6 +205,12 @@ class _Reader:
     def peek(self):
         return self.toks[self.pos] if self.pos < len(self.toks) else None
 
+    def line_start(self, offset):
+        """Offset of the blanks that precede `offset` on its line (spans cover whole lines)."""
+        while offset > 0 and self.text[offset - 1] in " \t":
+            offset -= 1
+        return offset
+
     def skip_newlines(self):
         while self.pos < len(self.toks) and self.toks[self.pos].kind == "NL":
             self.pos += 1
@@ -309,7 +315,7 @@ class _Reader:
                 break
             if t.kind != "W":
                 raise ReaderError(f"statement starts with {t.text!r} at offset {t.start}")
-            start = t.start
+            start = self.line_start(t.start)
             key = t.text
             idx = len(f.statements)
             self.pos += 1
@@ -339,7 +345,7 @@ class _Reader:
                         break
                     if t.kind != "W" or not is_number(t.text):
                         raise ReaderError(f"Decay {mother}: a line starts with {t.text!r}, not a branching fraction")
-                    lstart = t.start
+                    lstart = self.line_start(t.start)
                     self.pos += 1
                     toks, lend = self.until_semicolons(f"Decay {mother}")
                     daughters, photos, model_word, params = self.model_part(toks, f"Decay {mother}", idx, True)
